@@ -320,6 +320,9 @@ func (r *Raft) onInstallSnapRequest(req *installSnapReq, c *conn) (rpcResult, er
 		}
 	}
 	if discardLog {
+		// the fsm goroutine may still be applying committed entries through
+		// views of the log that is about to be unmapped: let it finish first
+		_ = r.lastApplied()
 		if err = r.storage.clearLog(); err != nil {
 			return unexpectedErr, err
 		}
